@@ -2,6 +2,7 @@ import RallyModel.JsonFast
 import RallyProofs.JsonFast
 import RallyProofs.JsonFastText
 import RallyProofs.JsonFastObj
+import RallyProofs.JsonFastMore
 /-!
 # C19 — fast-path response parsing agrees with full JSON parsing
 
@@ -570,5 +571,78 @@ theorem body_clean_after_last_page (st : Style) (left : BodyLeft) (c : SaQCall) 
     page limit is reached first -/
 example : saLeftAfter none { pages := 2, cursors := [some (.arr [.num (nat ['1'])]), some (.arr [.num (nat ['3'])])] } =
     some (some (.arr [.num (nat ['3'])])) := rfl
+
+/-! ## 6. What the two bulk paths SAY about the failures (`error-description`) -/
+
+/-- **bulk_fast_description_eq_detailed.**  Every bulk response whose items the loop can process and whose `errors`
+    flag is set: the fast path and the detailed path (= full parsing) collect the same `(status, reason)` pairs — one
+    for EVERY failed item, however many there are — and therefore report the same `error-description` text. -/
+theorem bulk_fast_description_eq_detailed (bulkSize : Int) (unitDocs : Bool) (kvs : List (Str × Json)) (items : List Json)
+    (rs : List (Option (Int × Option Str))) (h : BulkResp kvs items) (hc : Classified true items rs)
+    (hf : errorsFlag kvs = true) :
+    ∃ s d, simpleStats bulkSize unitDocs (.obj kvs) = .ok s ∧ detailedStats (.obj kvs) = .ok d ∧
+      s.details = d.details ∧ s.description = d.description ∧ (∀ x, x ∈ s.details ↔ some x ∈ rs) := by
+  have hi : itemsOf (.obj kvs) = .ok items := by simp [itemsOf, subscript, h.hitems, bind, Except.bind, pure, Except.pure]
+  have hs : simpleStats bulkSize unitDocs (.obj kvs) =
+      statsOf ((oget kvs kTook).map (fun n => PVal.s n.toSVal)) (tally {} rs) := by
+    rw [simpleStats_normal bulkSize unitDocs kvs h.good h.errorsScalar h.tookScalar, hf]
+    unfold simpleStatsWith
+    rw [hi]
+    simp only [if_true, countItems_eq false items rs {} (classified_true_false items rs hc)]
+  have hd : detailedStats (.obj kvs) = statsOf ((oget kvs kTook).map (fun n => PVal.s n.toSVal)) (tally {} rs) := by
+    unfold detailedStats
+    rw [hi]
+    simp only [countItems_eq true items rs {} hc, tookOf_ok kvs h.tookScalar]
+  exact ⟨_, _, hs, hd, rfl, rfl, fun x => by simpa [statsOf] using tally_details rs {} x⟩
+
+/-- **description_shows_sorted_failures.**  The entries the description is made of are a re-ordering of ALL collected
+    pairs (nothing is dropped before the five smallest are taken), it is cut iff there are more than five, … -/
+theorem description_shows_sorted_failures (ds : List (Int × Option Str)) :
+    (sortDetails ds).Perm ds ∧ (descOf ds).shown = (sortDetails ds).take 5 ∧
+    ((descOf ds).truncated.isSome ↔ ds.length > 5) := by
+  refine ⟨sortDetails_perm ds, rfl, ?_⟩
+  unfold descOf
+  by_cases h : ds.length > 5 <;> simp [h]
+
+/-- **truncation_summary_counts_every_failure.**  … and the `TRUNCATED <n>x<status>, …` summary accounts for every
+    collected pair: the counts add up to the number of distinct failures and every status that occurs is listed. -/
+theorem truncation_summary_counts_every_failure (ds : List (Int × Option Str)) :
+    countSum (statusCounts ds) = ds.length ∧ ∀ d ∈ ds, ∃ n, (d.1, n) ∈ statusCounts ds ∧ n > 0 :=
+  ⟨statusCounts_sum ds, fun d hd => statusCounts_mem ds d hd⟩
+
+/-- eight version conflicts, then a mapping error (400) and a rejected item (429): the 400 is shown first although it
+    was met ninth, and the summary counts all ten -/
+def tenFailures : List (Int × Option Str) :=
+  [(409, some ['a']), (409, some ['b']), (409, some ['c']), (409, some ['d']), (409, some ['e']), (409, some ['f']),
+   (409, some ['g']), (409, some ['h']), (400, some ['m']), (429, none)]
+
+example : (descOf tenFailures).shown = [(400, some ['m']), (409, some ['a']), (409, some ['b']), (409, some ['c']), (409, some ['d'])] ∧
+    (descOf tenFailures).truncated = some [(400, 1), (409, 8), (429, 1)] := by decide
+
+example : descEntry (429, none) = sHttp ++ intStr 429 ∧ descEntry (400, some ['m']) = sHttp ++ intStr 400 ++ sMsg ++ ['m'] :=
+  ⟨rfl, rfl⟩
+
+/-! ## 7. Several paginated searches in flight on the ONE registered `Query` object -/
+
+/-- **searches_in_flight_independent.**  Whatever the interleaving of the page requests of the searches that are in
+    flight on the shared runner (any schedule that gives search `j` enough quanta to finish), search `j` ends exactly
+    as `searchAfterQuery` says for ITS OWN page size, page limit and responses — the parameters of the searches that
+    run in between (in particular their `results-per-page`) are irrelevant: there is no state on the `Query` object. -/
+theorem searches_in_flight_independent (st : Style) (calls : List SaQCall) (sched : List Nat) (j : Nat) (c : SaQCall)
+    (hj : calls[j]? = some c) (hfair : c.resps.length + 1 ≤ sched.count j) :
+    ((saSchedule st sched (calls.map saStart))[j]?).map (·.res)
+      = some (some (searchAfterQuery st c.pit c.size c.total c.resps)) := by
+  rw [saSchedule_get]
+  simp only [List.getElem?_map, hj, Option.map_some, saStart]
+  rw [saQuanta_complete st c.pit c.size c.total c.resps 1 {} (sched.count j) hfair]
+  rfl
+
+/-- two searches with different page sizes (2 and 10) over pages of three hits, requests interleaved: the hypotheses of
+    the theorem hold for both (each gets three quanta, needs at most `pages served + 1`) -/
+def twoSearches : List SaQCall := [⟨false, 2, 9, [page7, page7]⟩, ⟨false, 10, 9, [page7]⟩]
+
+example : twoSearches[0]? = some ⟨false, 2, 9, [page7, page7]⟩ ∧ [page7, page7].length + 1 ≤ [0, 1, 0, 1, 0, 1].count 0 ∧
+    twoSearches[1]? = some ⟨false, 10, 9, [page7]⟩ ∧ [page7].length + 1 ≤ [0, 1, 0, 1, 0, 1].count 1 := by
+  refine ⟨rfl, by decide, rfl, by decide⟩
 
 end C19
